@@ -1,14 +1,10 @@
 (* Real-number lemmas for M_rodrigues.v (C10): the inverse map and the round trips. *)
 From Coq Require Import ZArith Reals Lra Psatz List Bool Lia Nsatz.
 From PW Require Import Num NumR Vec Mat Result.
-From PW.model Require Import M_rodrigues.
+From PW.model Require Import M_rodrigues M_rodrigues_spec.
 From PW.proofs Require Import P_vec P_mat P_rodrigues.
 Import ListNotations.
 Local Open Scope R_scope.
-
-(* contract of the svd step: u @ v is the input itself when the input is already orthogonal *)
-Definition proj_ok (proj : mat3 R -> mat3 R) : Prop :=
-  forall m, m3mul ROps (m3transpose m) m = I3 ROps -> proj m = m.
 
 Lemma rod_small_pos : 0 < rod_small ROps.
 Proof. unfold rod_small, nfrac; rops. lra. Qed.
